@@ -70,6 +70,10 @@ def check(ctx):
         files = inc_chain(a, leaf=macro_chain(m))
         pcs.append(ppx.PC(files, tag="mixed"))
         exp.append(("ok",) if m <= LIMIT else ("err", a))
+    # recursion that arrives through an actual argument (no macro body names a macro)
+    for t in ["`define APPLY(f) f(f)\n`APPLY(`APPLY)\n", "`define CALL(f, x) f(f, x)\n`CALL(`CALL, 1)\n",
+              "`define P(f, g) g(g, f)\n`define Q(f, g) f(g, f)\n`P(`P, `Q)\n", "`define SELF(x) x\n`define R `SELF(`R)\n`R\n"]:
+        pcs.append(ppx.PC({"top.sv": t}, tag="self-application")); exp.append(("err", 0))
     # the same families with the other flags on
     extra = []
     for pc, e in list(zip(pcs, exp))[:: (7 if q else 3)]:
